@@ -216,3 +216,8 @@ PROPS["C11"]["level_text"] += (" Constructor calls (Props/C11c.lean on Model/Cal
 
 PROPS["C19"]["engines"] = [("session_plain", {"quick": 48, "thorough": 1500}), ("session", {"quick": 64, "thorough": 1500})]
 ENGINES["session_plain"] = "the session engine restricted to plain category flags: every case runs Example.run_inline, Example.run_pytest and a real session and compares files and pending categories"
+
+PROPS["C14"]["engines"].append(("twins", {"quick": 400, "thorough": 8000}))
+PROPS["C14"]["rule"] += " ; plus identical test functions in 2-3 files differing only in a module-level constant (harness/engines/twins.py)"
+ENGINES["twins"] = "textually identical functions in several files: one call site per file must be tracked on its own"
+PROPS["C17"]["rule"] += " ; compared values optionally wrapped in a tuple (immutable outside, mutable inside)"
